@@ -50,6 +50,8 @@ def tasks(tier, seed):
     P += families.layout_family()
     if tier != "quick":
         P += families.corpus(["lorentz.ode", "fitzhughnagumo.ode", "beeler_reuter_1977.ode"])
+    from .. import gen
+    P += gen.programs(tier, seed, 80, 1000, "std") + gen.programs(tier, seed, 40, 500, "full")
     out = [dict(p, opts={}) for p in P]
     from . import c13
     out.append({"family": "SPLIT", "id": text_id(c13.MODELS[0], "vec"), "text": c13.MODELS[0], "opts": {"split": "A"}})
@@ -113,6 +115,17 @@ def default_cols(view, m):
     return [c0, c1]
 
 
+def singles_run(view, fn, cols, single_view=None):
+    """The property compares the batched call with the calls on each column alone: when a column alone already raises
+    (a model expression without a real value there), the property says nothing about that input."""
+    for c in cols:
+        try:
+            (single_view or view).concrete(fn, c)
+        except Exception:
+            return False
+    return True
+
+
 def spot_check(prog, view, m, fn, cfg, label, single_view=None):
     """Real batched call vs per-column calls for column pairs taken from a small grid of values."""
     import itertools
@@ -127,6 +140,9 @@ def spot_check(prog, view, m, fn, cfg, label, single_view=None):
         try:
             B, S = real_batched(view, fn, cfg, cols, single_view)
         except Exception as e:
+            if not singles_run(view, fn, cols, single_view):
+                prog.skip(label + f"|spot{k}", "the call on a single column raises as well: outside the property")
+                continue
             prog.fact(label + f"|spot{k}", False, "BatchedCallRaised", f"real call on (n, 2) arrays raised {type(e).__name__}: {str(e)[:200]}")
             return "raised"
         tried += 1
@@ -153,6 +169,8 @@ def check_function(prog: Prog, view: PyView, m, fn, cfg, tag, single_view=None):
             try:
                 B, singles = real_batched(view, fn, cfg, default_cols(view, m), single_view)
             except Exception as ex:
+                if not singles_run(view, fn, default_cols(view, m), single_view):
+                    return False, "the call on a single column raises as well: outside the property"
                 return True, f"real call on (n, 2) arrays raised {type(ex).__name__}: {str(ex)[:200]}"
             return False, "real batched call did not raise"
         prog.structural(label + "|batched-exec", e, confirm)
@@ -211,6 +229,9 @@ def check_function(prog: Prog, view: PyView, m, fn, cfg, tag, single_view=None):
             not differs(float(B[i, j]), float(S[j][i])) for i in range(res.length) for j in range(2))
         prog.fact(label + "|real-arrays", ok, "ColumnsDiffer", f"real call: batched shape {B.shape}, columns differ from single calls")
     except Exception as e:
+        if not singles_run(view, fn, default_cols(view, m), single_view):
+            prog.skip(label + "|real-arrays", "the call on a single column raises as well: outside the property")
+            return
         prog.fact(label + "|real-arrays", False, "BatchedCallRaised", f"real call on (n, 2) arrays raised {type(e).__name__}: {str(e)[:200]}")
 
 
